@@ -40,5 +40,6 @@ ITEMS = [
     # (R5: no sub-tree shared by two resources, or a later resource-scoped schema edit would rewrite both)
     Item('delete_resource.drains', K10.sym_delete_resource, [], 'dataflows/processors/delete_resource.py::delete_resource.func'),
     Item('duplicate.own-descriptor', K16.sym_duplicate_func, [], 'dataflows/processors/duplicate.py::duplicate.func'),
+    Item('duplicate.saver', K16.sym_saver, [], 'dataflows/processors/duplicate.py::saver'),
     Item('core-objects', BA.sym_base_objects, [], BA.B + 'datastream.py::DataStream.merge_stats'),
 ]
